@@ -301,8 +301,9 @@ ASMJIT_FAVOR_SIZE Error FuncArgsContext::mark_scratch_regs(FuncFrame& frame) noe
     if (Support::bit_test(group_mask, group)) {
       WorkData& wd = _work_data[group];
       if (wd._needs_scratch) {
-        // Initially, pick some clobbered or dirty register.
-        RegMask work_regs = wd.work_regs();
+        // Initially, pick some clobbered or dirty register. It must not be a register that holds an argument or SA
+        // register on entry as the scratch register is required before these leave their registers.
+        RegMask work_regs = wd.work_regs() & ~wd.assigned_regs();
         RegMask regs = work_regs & ~(wd.used_regs() | wd._dst_shuf);
 
         // If that didn't work out pick some register which is not in 'used'.
@@ -314,7 +315,7 @@ ASMJIT_FAVOR_SIZE Error FuncArgsContext::mark_scratch_regs(FuncFrame& frame) noe
         // This last resort case will, however, result in marking one more
         // register dirty.
         if (!regs) {
-          regs = wd.arch_regs() & ~work_regs;
+          regs = wd.arch_regs() & ~wd.work_regs();
         }
 
         // If that didn't work out we will have to use XORs instead of MOVs.
